@@ -70,6 +70,20 @@ class HookBoom(Exception):
     pass
 
 
+class BadStrError(Exception):
+    """An Exception whose __str__ itself raises (formatting it must not be needed to contain it)."""
+
+    def __str__(self):
+        raise RuntimeError("cannot format")
+
+
+class NonStrError(Exception):
+    """An Exception whose __str__ returns a non-str (str(exc) raises TypeError)."""
+
+    def __str__(self):
+        return 5
+
+
 class ScriptExc(Exception):
     def __init__(self, klass: str, idx: int, ra=None):
         super().__init__(f"{klass}@{idx}")
@@ -106,6 +120,10 @@ def make_exc(name: str):
         return RuntimeError("injected")
     if name == "HookBoom":
         return HookBoom("injected")
+    if name == "BadStrError":
+        return BadStrError("injected")
+    if name == "NonStrError":
+        return NonStrError("injected")
     if name == "StopIteration":
         return StopIteration("injected")
     if name == "KeyError":
